@@ -531,7 +531,8 @@ def run_c14(pid: str, tier: str) -> int:
                        'which the same run validates against the specification']
     d = tlc.fresh('mcnot')
     d.mkdir(parents=True)
-    pack = '{0, 12, 13, 25, 26, 38, 39, 51}' if quick else '{0, 5, 12, 13, 20, 25, 26, 30, 38, 39, 44, 51}'
+    # 10 cards in the thorough tier: 1,024 subsets, 2.5 minutes (12 cards timed out after 40)
+    pack = '{0, 12, 13, 25, 26, 38, 39, 51}' if quick else '{0, 5, 12, 13, 25, 26, 30, 38, 39, 51}'
     (d / 'MCNotH.tla').write_text(
         '---- MODULE MCNotH ----\nEXTENDS Notation\nVARIABLE z\n'
         f'ASSUME HandsInjective({pack})\nSpec == z = 0 /\\ [][UNCHANGED z]_z\n====\n')
